@@ -256,7 +256,7 @@ def check_handler(case):
         from .c18 import check_cell_veto
         (sig, n), fails = check_cell_veto(("veto",) + tuple(case[2:]))
         return (("cellveto", frozenset([tuple(map(str, sig))])), n), fails
-    fn = {"direct": case_direct, "cbound": case_cbound, "summed": case_summed, "root_summed": case_root_summed,
+    fn = {"direct": case_direct, "cbound": case_cbound, "cellbound": case_cellbound, "cellbound_composite": case_cellbound_composite, "summed": case_summed, "root_summed": case_root_summed,
           "root_direct": case_root_direct, "piecewise_lj": case_piecewise_lj, "bending": case_bending}[kind]
     try:
         n, regimes, fails = fn(case)
@@ -328,6 +328,98 @@ def case_cbound(case):
         n += k
         regimes |= rg
         fails += fl
+    return n, regimes, fails
+
+
+def case_cellbound(case):
+    """("handler", "cellbound", cells per side, charge of the target, restored): the cell-bounded pair handler of the
+    shipped cell_bounded.ini files (periodic Coulomb, CellBoundingPotential with the real InnerPointEstimator on the real
+    CuboidPeriodicCells).  The proposal rate is constant per cell separation and only valid while the active unit is in
+    its cell (a cell-boundary event ends the leg), so the identity is required for t below the time to the cell face."""
+    import random
+    from jellyfysh.event_handler.two_leaf_unit_cell_bounding_potential_event_handler import \
+        TwoLeafUnitCellBoundingPotentialEventHandler
+    from jellyfysh.potential.cell_bounding_potential import CellBoundingPotential
+    from jellyfysh.estimator.inner_point_estimator import InnerPointEstimator
+    from jellyfysh.activator.internal_state.cell_occupancy.cells.cuboid_periodic_cells import CuboidPeriodicCells
+    _, _, counts, cb, restored = case
+    L = 1.0
+    init_setting((L, L, L), cubic=True)
+    true, _ = _coulomb_pots(L, 1.0, None)
+    cells = CuboidPeriodicCells(cells_per_side=list(counts))
+    random.seed(12345)
+    est = InnerPointEstimator(potential=true, prefactor=1.5, target_charge=1.0)
+    handler = TwoLeafUnitCellBoundingPotentialEventHandler(potential=true, bounding_potential=CellBoundingPotential(est),
+                                                           charge=Q)
+    handler.initialize(cells)
+    if restored:
+        import dill
+        handler = dill.loads(dill.dumps(handler))
+    side = [L / c for c in counts]
+    n, regimes, fails = 0, set(), []
+    # active unit a little above the lower face of cell (0, 0, 0) in the direction of motion; targets in cells that
+    # are not nearby (two or more cells away in y or z), at several places inside their cell
+    for d in range(3):
+        vel = [0.0, 0.0, 0.0]
+        vel[d] = 1.0
+        pa = [0.45 * side[i] for i in range(3)]
+        pa[d] = 0.04 * side[d]
+        t_max = (side[d] - pa[d]) / 1.0
+        for tc, frac in (((0, 2, 0), (0.5, 0.5, 0.5)), ((1, 2, 3), (0.1, 0.9, 0.2)), ((0, 0, 3), (0.8, 0.3, 0.05)),
+                         ((2, 3, 5), (0.95, 0.5, 0.5)), ((1, 0, 2), (0.3, 0.7, 0.6))):
+            pb = [(tc[i] + frac[i]) * side[i] for i in range(3)]
+            st = [hx.atom_branch(0, pa, {Q: 1.0}, vel, (1.0, 0.25)), hx.atom_branch(1, pb, {Q: cb})]
+            k, rg, fl = kernel_identity("TwoLeafUnitCellBoundingPotentialEventHandler (periodic Coulomb, inner-point "
+                                        "estimator, cells %r%s) target charge %+g in cell %r direction %d"
+                                        % (tuple(counts), ", restored from a dump" if restored else "", cb, tc, d),
+                                        handler, st, lambda t: pair_rate_coulomb(1.0, cb, pa, vel, pb, L, t, 1.0),
+                                        heuristic_bound=True, t_max=t_max)
+            n += k
+            regimes |= rg
+            fails += fl
+    return n, regimes, fails
+
+
+def case_cellbound_composite(case):
+    """("handler", "cellbound_composite", cells per side, lifting): the cell-bounded dipole-dipole handler of the shipped
+    dipoles/cell_bounded.ini (real DipoleMonteCarloEstimator on the real cells of the composite objects' positions)."""
+    import importlib
+    import random
+    from jellyfysh.event_handler.two_composite_object_cell_bounding_potential_event_handler import \
+        TwoCompositeObjectCellBoundingPotentialEventHandler as H
+    from jellyfysh.potential.cell_bounding_potential import CellBoundingPotential
+    from jellyfysh.estimator.dipole_monte_carlo_estimator import DipoleMonteCarloEstimator
+    from jellyfysh.activator.internal_state.cell_occupancy.cells.cuboid_periodic_cells import CuboidPeriodicCells
+    _, _, counts, lifting = case
+    L, nl = 1.0, 2
+    init_setting((L, L, L), cubic=True, roots=2, per_root=nl)
+    true, _ = _coulomb_pots(L, 1.0, None)
+    cells = CuboidPeriodicCells(cells_per_side=list(counts))
+    random.seed(4711)
+    est = DipoleMonteCarloEstimator(potential=true, dipole_separation=0.05, prefactor=2.0, number_trials=150)
+    mod, cls = lifting.split(".")
+    handler = H(potential=true, bounding_potential=CellBoundingPotential(est),
+                lifting=getattr(importlib.import_module("jellyfysh.lifting." + mod), cls)(), charge=Q)
+    handler.initialize(cells)
+    side = [L / c for c in counts]
+    n, regimes, fails = 0, set(), []
+    for off, d in (((0.1, 0.45, 0.05), 0), ((0.2, 0.1, 0.4), 1), ((-0.25, -0.5, 0.3), 2), ((0.05, 0.41, -0.3), 1)):
+        for active in range(nl):
+            vel = [0.0, 0.0, 0.0]
+            vel[d] = 1.0
+            a, b, pa, pb, ch = _molecules(L, nl, off, active, vel)
+            root = a.value.position
+            # the composite object's velocity is vel / nl: time until its position leaves its cell
+            t_max = (side[d] - root[d] % side[d]) * nl
+
+            def q(t, active=active, pa=pa, pb=pb, ch=ch, vel=vel):
+                return sum(pair_rate_coulomb(ch[active], ch[j], pa[active], vel, pb[j], L, t, 1.0) for j in range(nl))
+            k, rg, fl = kernel_identity("TwoCompositeObjectCellBoundingPotentialEventHandler (cells %r, %s) offset %r "
+                                        "direction %d active leaf %d" % (tuple(counts), cls, off, d, active), handler,
+                                        [a, b], q, heuristic_bound=True, t_max=t_max)
+            n += k
+            regimes |= rg
+            fails += fl
     return n, regimes, fails
 
 
@@ -525,6 +617,11 @@ def cases(ctx):
     yield ("handler", "direct", ("lj", 0.62, 0.3), 1.0)
     yield ("handler", "direct", ("even", 0.1, 2, 200.0), 1.0)
     yield ("handler", "cbound", 1.0, 1.0, None, 1.0, True)
+    for cb in (1.0, -1.0):
+        yield ("handler", "cellbound", (3, 5, 7), cb, False)
+    yield ("handler", "cellbound", (3, 5, 7), -1.0, True)
+    for lifting in ("inside_first_lifting.InsideFirstLifting", "ratio_lifting.RatioLifting"):
+        yield ("handler", "cellbound_composite", (3, 5, 7), lifting)
     for scheme in ("inside_first_lifting.InsideFirstLifting", "outside_first_lifting.OutsideFirstLifting",
                    "ratio_lifting.RatioLifting"):
         for nl in (2, 3):
